@@ -486,3 +486,48 @@ func MutateTargeted(t *rapid.T, root *JV) Mutation {
 		return Mutation{Kind: "type-url", Path: n.path}
 	}
 }
+
+// HostileActionList replaces the pre_actions of a memo tree by a list of 2-4 actions with
+// hostile identifiers and attributes (several of them invalid for different reasons at once).
+func HostileActionList(t *rapid.T, root *JV) {
+	var orb *JV
+	for _, kv := range root.Obj {
+		if kv.K == "orbiter" {
+			orb = kv.V
+		}
+	}
+	if orb == nil || orb.Kind != jObj {
+		return
+	}
+	n := 2 + uniform(t, "hal/n", 3)
+	list := &JV{Kind: jArr}
+	for i := 0; i < n; i++ {
+		l := fmt.Sprintf("hal/%d", i)
+		a := &JV{Kind: jObj}
+		id := Pick(t, l+"/id", []string{`"ACTION_FEE"`, `"ACTION_SWAP"`, `1`, `2`, `0`, `3`, `7`, `8`, `-1`, `"ACTION_UNSUPPORTED"`, `99`})
+		if !Chance(t, l+"/noid", 10) {
+			a.Obj = append(a.Obj, JKV{"id", JRaw(id)})
+		}
+		switch Pick(t, l+"/attr", []string{"fee", "fee", "absent", "null", "wrong-type", "empty-fee", "bad-fee"}) {
+		case "fee":
+			a.Obj = append(a.Obj, JKV{"attributes", JRaw(`{"@type":"` + urlFee + `","fees_info":[{"recipient":"noble1nnydkwkkm05nqjl4fn6d2k4p2t0kpgl37mlt7v","basis_points":{"value":10}}]}`)})
+		case "absent":
+		case "null":
+			a.Obj = append(a.Obj, JKV{"attributes", JNull()})
+		case "wrong-type":
+			a.Obj = append(a.Obj, JKV{"attributes", JRaw(`{"@type":"` + urlInternal + `","recipient":"noble1nnydkwkkm05nqjl4fn6d2k4p2t0kpgl37mlt7v"}`)})
+		case "empty-fee":
+			a.Obj = append(a.Obj, JKV{"attributes", JRaw(`{"@type":"` + urlFee + `"}`)})
+		case "bad-fee":
+			a.Obj = append(a.Obj, JKV{"attributes", JRaw(`{"@type":"` + urlFee + `","fees_info":[{"recipient":"x","basis_points":{"value":0}},{"recipient":"","amount":{"value":"-1"}}]}`)})
+		}
+		list.Arr = append(list.Arr, a)
+	}
+	for i, kv := range orb.Obj {
+		if kv.K == "pre_actions" {
+			orb.Obj[i].V = list
+			return
+		}
+	}
+	orb.Obj = append(orb.Obj, JKV{"pre_actions", list})
+}
